@@ -61,9 +61,28 @@ Theorem c07_assertion_on_store : forall ad_bytes c q st d script st' tr res,
                               /\ st' = put st (bump_counter cred0 n).
 Proof. exact assert_step_any. Qed.
 
+(** *** tie to the source text (regenerated on every run): the save is the last thing the body of
+    make_credential mentions, after every fallible step; assertions and U2F authentications mention no save *)
+From Coq Require Import String.
+From PK Require Import Auth.gen.Skeleton Auth.SkeletonFacts.
+Open Scope string_scope.
+Theorem c07_source_save_is_last :
+  last SRC_MAKE_CREDENTIAL "" = "Save"
+  /\ before "MakeExt" "Save" SRC_MAKE_CREDENTIAL = true
+  /\ before "ChooseAlg" "Save" SRC_MAKE_CREDENTIAL = true
+  /\ before "GetInfo" "Save" SRC_MAKE_CREDENTIAL = true
+  /\ before "Sign" "Save" SRC_U2F_REGISTER = true
+  /\ first_pos "Save" SRC_GET_ASSERTION = None
+  /\ first_pos "Save" SRC_U2F_AUTHENTICATE = None /\ first_pos "Update" SRC_U2F_AUTHENTICATE = None.
+Proof. exact source_save_is_last. Qed.
+Theorem c07_source_order_get_assertion : forall adb c q, follows (skeleton SRC_GET_ASSERTION) (get_assertion adb c q).
+Proof. exact get_assertion_follows_source_order. Qed.
+
 Print Assumptions c07_registration.
 Print Assumptions c07_registration_mutations.
 Print Assumptions c07_assertion.
 Print Assumptions c07_assertion_mutations.
 Print Assumptions c07_registration_on_store.
 Print Assumptions c07_assertion_on_store.
+Print Assumptions c07_source_save_is_last.
+Print Assumptions c07_source_order_get_assertion.
